@@ -52,6 +52,10 @@ class C01(Prop):
         c = self.cfg(rng)
         f = lang.gen_formula(rng, c)
         n = rng.choice([1, 1, 2, 3, 4, 5, 6, 8, 10, 13, 20, 40]) if rng.random() < 0.7 else rng.randint(1, 40)
+        if rng.random() < 0.08:
+            x = lang.V(rng.choice(c.vars))
+            inner = lang.N(rng.choice(['always', 'eventually']), x, ivl=(rng.choice([0, 0, 1]), n + rng.randint(0, 4)))
+            f = lang.N(rng.choice(['and', 'or', 'add', 'until', 'since']), *rng.sample([inner, rng.choice([x, f])], 2))
         names = lang.variables(f) or [c.vars[0]]
         extra = [v for v in c.vars if v not in names]
         if extra and rng.random() < 0.2:
